@@ -424,6 +424,8 @@ class P(Prop):
         return {"kind": "sb", "pts": pts, "tol": tol, "smode": rng.choice([4, 5, 6]), "form": rng.choice(["pos", "kw"])}
 
     def rand_stops(self, rng):
+        if rng.random() < 0.25:
+            return self.rand_rtk(rng)
         n = rng.randrange(4, 12)
         dyadic = rng.random() < 0.4
         pts, x, y, t = [], 0.0, 0.0, 0
@@ -439,6 +441,18 @@ class P(Prop):
             pts.append([x, y, t])
         return {"kind": "stops", "pts": pts, "diameter": rng.choice([5, 10, 20] + ([2.5, 7.25] if dyadic else [])),
                 "duration": rng.choice([0, 5, 10, 30] + ([7.5, 12.5] if dyadic else []))}
+
+    def rand_rtk(self, rng):
+        n = rng.randrange(4, 12)
+        pts, x, y, t = [], 0.0, 0.0, 0
+        for _ in range(n):
+            if rng.random() < 0.7:
+                x += rng.randrange(-8, 9) / 8; y += rng.randrange(-8, 9) / 8
+            else:
+                x += rng.randrange(5, 40); y += rng.randrange(-20, 20)
+            t += rng.choice([1, 2, 5, 10])
+            pts.append([x, y, t])
+        return {"kind": "stops", "rtk": True, "pts": pts, "std": rng.choice([0.25, 0.5, 1.0, 2.0]), "duration": rng.choice([0, 2, 5, 10])}
 
     def describe(self, case):
         k = case["kind"]
@@ -466,7 +480,8 @@ class P(Prop):
             t["tol"] = "none" if g[0] == "none" else ("falsy " if not pyval(g, self.np) else "") + g[0]
         if k == "stops":
             g = self.geometry(case)
-            t["criterion"] = "documented = coded" if g["Rdoc"] == g["Rcode"] else "documented != coded (boundary tie)"
+            t["criterion"] = "rtk variant (delegation only)" if case.get("rtk") else (
+                "documented = coded" if g["Rdoc"] == g["Rcode"] else "documented != coded (boundary tie)")
         return t
 
     def nontrivial(self, case):
@@ -711,7 +726,10 @@ class P(Prop):
         self.S.optimalPartition = spy
         self.S.minCircle = spy_mc
         try:
-            stops = self.S.findStopsGlobal(t, case["diameter"], case["duration"], 1, False)
+            if case.get("rtk"):
+                stops = self.S.findStopsGlobalForRTK(t, case["std"], case["duration"], 1, False)
+            else:
+                stops = self.S.findStopsGlobal(t, case["diameter"], case["duration"], 1, False)
         finally:
             self.S.optimalPartition = real
             self.S.minCircle = real_mc
@@ -741,26 +759,54 @@ class P(Prop):
         pts = [(Fraction(p[0]), Fraction(p[1])) for p in case["pts"]]
         ts = [p[2] for p in case["pts"]]
         n = len(pts)
-        d, du = Fraction(case["diameter"]), Fraction(case["duration"])
-        r2 = [[None] * n for _ in range(n)]
-        for i in range(n):
-            for e in range(i, n):
-                r2[i][e] = mec_r2(pts[i:e + 1])
-        far = [[int(d2(pts[i], pts[e]) > d * d) for e in range(n)] for i in range(n)]
+        du = Fraction(case["duration"])
         short = [[int(ts[e] - ts[i] <= du) for e in range(n)] for i in range(n)]
-        small = [[int(e >= i and 4 * r2[i][e] < d * d) for e in range(n)] for i in range(n)]
-        keep = [[int(e >= i and 4 * r2[i][e] <= d * d and ts[e] - ts[i] >= du) for e in range(n)] for i in range(n)]
-        tie = [[int(e >= i and (4 * r2[i][e] == d * d or ts[e] - ts[i] == du)) for e in range(n)] for i in range(n)]
+        if case.get("rtk"):
+            # findStopsGlobalForRTK: same loops, `far` = distance > 3 std_max, `small` = sqrt(var_x + var_y + var_z) < std_max
+            sd = Fraction(case["std"])
+
+            def var(i, e):
+                m = e - i + 1
+                return sum(sum(p[a] * p[a] for p in pts[i:e + 1]) / m - (sum(p[a] for p in pts[i:e + 1]) / m) ** 2 for a in (0, 1))
+            v = [[var(i, e) if e >= i else None for e in range(n)] for i in range(n)]
+            far = [[int(d2(pts[i], pts[e]) > 9 * sd * sd) for e in range(n)] for i in range(n)]
+            small = [[int(e >= i and v[i][e] < sd * sd) for e in range(n)] for i in range(n)]
+            tie = [[int(e >= i and (v[i][e] == sd * sd or ts[e] - ts[i] == du)) for e in range(n)] for i in range(n)]
+            fuzzy = [[int(e >= i and v[i][e] == sd * sd) for e in range(n)] for i in range(n)]   # a double sqrt decides
+        else:
+            d = Fraction(case["diameter"])
+            r2 = [[None] * n for _ in range(n)]
+            for i in range(n):
+                for e in range(i, n):
+                    r2[i][e] = mec_r2(pts[i:e + 1])
+            far = [[int(d2(pts[i], pts[e]) > d * d) for e in range(n)] for i in range(n)]
+            small = [[int(e >= i and 4 * r2[i][e] < d * d) for e in range(n)] for i in range(n)]
+            tie = [[int(e >= i and (4 * r2[i][e] == d * d or ts[e] - ts[i] == du)) for e in range(n)] for i in range(n)]
+            fuzzy = [[0] * n for _ in range(n)]
+        # what the code writes (model's stopsReward): the row loop stops at the first far end point
         Rcode = [[0] * n for _ in range(n)]
         Rdoc = [[0] * n for _ in range(n)]
         for i in range(max(n - 2, 0)):
             for j in range(i + 1, n - 1):
                 e = j - 1
-                if 4 * r2[i][e] < d * d and ts[e] - ts[i] > du:
+                if far[i][e]:
+                    break
+                if small[i][e] and not short[i][e]:
                     Rcode[i][j] = Rcode[j][i] = (j - i) ** 2
-                if 4 * r2[i][e] <= d * d and ts[e] - ts[i] >= du:
-                    Rdoc[i][j] = Rdoc[j][i] = (j - i) ** 2
-        g = {"far": far, "short": short, "small": small, "keep": keep, "tie": tie, "Rcode": Rcode, "Rdoc": Rdoc}
+        if case.get("rtk"):
+            # the documented criterion of the RTK variant (factor 0.33 under the root, no break) is not what is coded and is
+            # not part of this property: only the delegation is checked there
+            Rdoc = [list(r) for r in Rcode]
+            keep = [[int(e + 1 < n and Rcode[i][e + 1] != 0) for e in range(n)] for i in range(n)]
+        else:
+            # documented: 0 if the enclosing circle is > diameter, 0 if the duration is < duration, (j-i)^2 otherwise
+            for i in range(max(n - 2, 0)):
+                for j in range(i + 1, n - 1):
+                    e = j - 1
+                    if 4 * r2[i][e] <= d * d and ts[e] - ts[i] >= du:
+                        Rdoc[i][j] = Rdoc[j][i] = (j - i) ** 2
+            keep = [[int(e >= i and 4 * r2[i][e] <= d * d and ts[e] - ts[i] >= du) for e in range(n)] for i in range(n)]
+        g = {"far": far, "short": short, "small": small, "keep": keep, "tie": tie, "fuzzy": fuzzy, "Rcode": Rcode, "Rdoc": Rdoc}
         if len(self._geo) > 4000:
             self._geo.clear()
         self._geo[key] = g
@@ -807,9 +853,19 @@ class P(Prop):
             g = self.geometry(case)
             cap = self.run_capture(case)
             small = [list(r) for r in g["small"]]
+            keep = g["keep"]
+            n = len(small)
             for (i, e) in (cap.get("none") or []):
                 small[i][e] = 2
-            return ["C12.stops q %s %s %s %s" % (self.btok(g["far"]), self.btok(g["short"]), self.btok(small), self.btok(g["keep"]))]
+            if any(v for r in g["fuzzy"] for v in r) and "C" in cap and len(cap["C"]) == n:
+                # var == std_max^2 exactly: whether sqrt(var) < std_max holds in doubles is geometry (a parameter): read it off the run
+                keep = [list(r) for r in keep]
+                for i in range(n):
+                    for e in range(i, n - 1):
+                        if g["fuzzy"][i][e]:
+                            small[i][e] = int(cap["C"][i][e + 1] != 0)
+                            keep[i][e] = int(cap["C"][i][e + 1] != 0)
+            return ["C12.stops q %s %s %s %s" % (self.btok(g["far"]), self.btok(g["short"]), self.btok(small), self.btok(keep))]
 
     def run_capture(self, case):
         import engine
@@ -960,6 +1016,13 @@ class P(Prop):
             n = len(case["pts"])
             if out["mode"] != int(self.S.MODE_SEGMENTATION_MAXIMIZE):
                 return "findStopsGlobal delegates with mode %s instead of MAXIMIZE" % out["mode"]
+            if case.get("rtk"):
+                # the RTK variant is outside the property's anchors: only the delegation (a symmetric matrix, MAXIMIZE, an optimal
+                # answer for the matrix passed); its matrix construction is compared with the model (correspondence)
+                Cx = [[Fraction(v) for v in r] for r in out["C"]]
+                if any(Cx[a][b] != Cx[b][a] for a in range(len(Cx)) for b in range(len(Cx))):
+                    return "findStopsGlobalForRTK passes an asymmetric matrix"
+                return oracle(Cx, len(Cx) - 1, True, out["idx"], 0, "summed reward")
             # The reward recomputed from the track, cell by cell. Where the documentation leaves no doubt the cell must hold
             # exactly that; on a boundary tie (segment lasting exactly `duration`, circle of diameter exactly `diameter`) the
             # documented (inclusive) and the coded (exclusive) conventions are both accepted; a segment whose circle tracklib's
